@@ -6,7 +6,7 @@ import z3
 from .state import CountRec
 from .values import (EMPTY, ENUMS, STR, VAL, DictRec, ListRec, SBool, SBuiltin, SCarried, SClass, SDict, SElem, SEnum,
                      SExternal, SFloat, SFunc, SInt, SList, SModel, SModule, SNone, SObj, SOpaque, SOpt, SSet, SStr,
-                     STuple, SVal, Seg, Unsupported, V, fresh_int, fresh_name, vdict_size, vlist_len, vother_truthy)
+                     STuple, SVal, Seg, SHavoc, Unsupported, V, fresh_bool, fresh_int, fresh_name, vdict_size, vlist_len, vother_truthy)
 
 TRUE = z3.BoolVal(True)
 FALSE = z3.BoolVal(False)
@@ -45,6 +45,8 @@ class Ops:
     def is_none(self, v: V):
         if v is SNone:
             return TRUE
+        if isinstance(v, SHavoc):
+            return fresh_bool(v.tag + ".isnone")
         if isinstance(v, SOpt):
             inner = self.is_none(v.inner)
             return v.isnone if z3.is_false(inner) else z3.Or(v.isnone, inner)
@@ -64,6 +66,8 @@ class Ops:
     def truthy(self, v: V):
         if isinstance(v, SBool):
             return v.t
+        if isinstance(v, SHavoc):
+            return fresh_bool(v.tag + ".truthy")
         if isinstance(v, SInt):
             return v.t != 0
         if isinstance(v, SFloat):
@@ -98,6 +102,8 @@ class Ops:
     def eq(self, a: V, b: V):
         if isinstance(a, SCarried) or isinstance(b, SCarried):
             raise Unsupported("loop-carried variable read")
+        if isinstance(a, SHavoc) or isinstance(b, SHavoc):
+            return fresh_bool((a if isinstance(a, SHavoc) else b).tag + ".eq")
         if a is SNone:
             return self.is_none(b)
         if b is SNone:
